@@ -226,6 +226,10 @@ func (rule AddAssignment) AsRewriteRule(pkg string) (option.RewriteRule, error) 
 		return option.RewriteRule{}, err
 	}
 
+	if err := checkAssignmentValue(rule.Assignment.Value); err != nil {
+		return option.RewriteRule{}, fmt.Errorf("add_assignment: assignment to '%s': %w", rule.Assignment.Path, err)
+	}
+
 	return option.AddAssignment(selector, rule.Assignment), nil
 }
 
